@@ -12,9 +12,12 @@ const (
 	FCrashA
 	FTorn
 	FStall
+	// FReset: a read whose body breaks midway: the Get succeeds, its reader delivers a prefix of the object (cut chosen by the
+	// tape) and then a transient error instead of EOF. On any other call it is F-ERR.
+	FReset
 )
 
-var kindNames = [...]string{"none", "F-ERR", "F-ACKLOST", "F-CRASH-B", "F-CRASH-A", "F-TORN", "F-STALL"}
+var kindNames = [...]string{"none", "F-ERR", "F-ACKLOST", "F-CRASH-B", "F-CRASH-A", "F-TORN", "F-STALL", "F-RESET"}
 
 func (k Kind) String() string { return kindNames[k] }
 
@@ -36,6 +39,8 @@ type Planned struct {
 type FaultCfg struct {
 	Err, AckLost, Torn, Stall, Crash int
 	Budget                           int // max number of random faults still allowed (faults stop at 0)
+	// Reset: rate of F-RESET on eligible Get calls
+	Reset int
 	// Eligible restricts random faults (nil = every call). Planned faults ignore it.
 	Eligible func(c *Call) bool
 	Plan     []*Planned
@@ -89,6 +94,8 @@ func (w *World) decideFault(c *Call) Kind {
 		k = FTorn
 	case f.Stall > 0 && w.S.Bool(f.Stall, 1000):
 		k = FStall
+	case f.Reset > 0 && (c.Op == OpGet || c.Op == OpGetVersion) && w.S.Bool(f.Reset, 1000):
+		k = FReset
 	case isW && f.Crash > 0 && w.S.Bool(f.Crash, 1000):
 		if w.S.Bool(1, 2) {
 			k = FCrashA
